@@ -33,14 +33,14 @@ RULE = (
 )
 ASSUMPTIONS = ["expected message = Python str.format of the template with the six documented placeholders; OLD/NEW shorthand by word boundary"]
 
-SIGMA = ["a", " ", "'", '"', "\\", "$", "`", "-", ";", "\n", "é", "{new_version}"]
+SIGMA = ["a", " ", "'", '"', "\\", "$", "`", "-", ";", "\n", "é", "{new_version}", "%"]
 CLI_EXTRA = ["OLD", "NEW"]
 PATH_SIGMA = ["a", " ", "'", '"', "$", "`", "-", ";", "é", "\\"]
 PATTERN_CHARS = ["'", "$", "`", ";", "é", "*", "?", "(", "&", "#", "~", "!"]
 BENIGN = "Zq9"
 OLD, NEW = "1.2.3", "1.2.4"
 KW = dict(new_version=NEW, old_version=OLD, NEW_VERSION=NEW, OLD_VERSION=OLD, new_version_pep440=NEW, old_version_pep440=OLD)
-SLOTS = ("commit-config", "commit-cli", "tag-config", "tag-cli", "path", "pattern-literal")
+SLOTS = ("commit-config", "commit-cli", "tag-config", "tag-cli", "path", "pattern-literal", "commit-config-ini", "tag-config-ini")
 
 
 def hexs(syms):
@@ -83,9 +83,9 @@ def build(slot, value, kind):
     pattern = "MAJOR.MINOR.PATCH"
     old = OLD
     args = ["update", "--patch", "--no-fetch", "--commit", "--tag-commit", "--push"]
-    if slot == "commit-config":
+    if slot in ("commit-config", "commit-config-ini"):
         commit_msg = value
-    elif slot == "tag-config":
+    elif slot in ("tag-config", "tag-config-ini"):
         tag_msg = value
     elif slot == "commit-cli":
         args += ["-c", value]
@@ -101,6 +101,16 @@ def build(slot, value, kind):
         f"commit_message = {toml_basic(commit_msg)}", f"tag_message = {toml_basic(tag_msg)}", "commit = true", "tag = true", "push = true",
         "", "[bumpver.file_patterns]", '"bumpver.toml" = [\'current_version = "{version}"\']', f"{toml_key(path)} = [\"ver={{version}};\"]", "",
     ])
+    if slot.endswith("-ini"):
+        # the same configuration as setup.cfg; values that INI syntax cannot carry are not generated
+        if value != value.strip() or "\n" in value or value[:1] in "#;" or value == "" or value[:1] in "'\"" or value[-1:] in "'\"":
+            return None, args, path  # (in setup.cfg quotes around a value are the quoting convention, not part of it)
+        ini = "\n".join([
+            "[bumpver]", f"current_version = {old}", f"version_pattern = {pattern}", f"commit_message = {commit_msg}",
+            f"tag_message = {tag_msg}", "commit = True", "tag = True", "push = True", "", "[bumpver:file_patterns]",
+            "setup.cfg =", "    current_version = {version}", f"{path} =", "    ver={version};", "",
+        ])
+        return {"setup.cfg": ini.encode("utf-8"), path: ("ver=" + old + ";\n").encode("utf-8")}, args, path
     files = {"bumpver.toml": cfg.encode("utf-8"), path: ("ver=" + old + ";\n").encode("utf-8")}
     import toml as _toml
 
@@ -262,7 +272,7 @@ def bounds(tier, seed):
 def explore(tier, seed):
     n = 3 if tier == "quick" else 4
     chunks = []
-    for slot in SLOTS[:4]:
+    for slot in SLOTS[:4] + SLOTS[6:]:
         alpha = SIGMA + (CLI_EXTRA if slot.endswith("cli") else [])
         for first in alpha:
             chunks.append(("strings", slot, first, n, "git"))
